@@ -86,12 +86,26 @@ def scenario(world: WorldT) -> None:
         ctx = "[blocking] " + ctx
         res.stats["commands"] = res.stats.get("commands", 0) + 1
         res.probe("blocking_command")
+        first = None
+        if op.get("twin") and op["op"] in ("target_temp", "pump_mode"):
+            # two commands for the same setting in one instant (a thermostat slider, a double click): they take effect in the order they were
+            # made, so the setting ends at the second one
+            first = build_command(dict(op, arg=op["arg"] + 1), ci, facade, spa, res, cfg["snapshot"], sync=True, model=model)
         try:
+            if first is not None:
+                first[2]()
+                res.probe("two_blocking_commands_for_one_setting_in_one_instant")
             thunk()
         except Exception as e:
             world.violate(PROP, "command-raised", f"{ctx}: raised {type(e).__name__}: {e}")
         settle()
         real = list(model.commands[mark:])
+        if first is not None:
+            if len(real) != 2:
+                world.violate(PROP, "command-count", f"{ctx} right after {first[0]}: {len(real)} command datagram(s) reached the spa, expected 2",
+                              sig="command-count:" + ("extra" if len(real) > 2 else "missing"))
+            ctx = f"{ctx} (made right after {first[0]}: the second command decides)"
+            real = real[1:]
         judge(world, ctx, expect, real, model, spa, facade, ident)
     settle()
     if spa.struct.status_block != model.structure.status_block:
